@@ -3595,13 +3595,17 @@ class Assemble(Array):
         advanced_ndim = builtins.sum(index.ndim for index in self.indices if not isinstance(index, Range))
         compiled_indices = []
         trans = [] # axes of func corresponding to advanced indices
+        range_axes = [] # axes of func corresponding to ranges
+        advanced_positions = [] # positions in self.indices of the advanced indices
         i = 0
-        for index in self.indices:
+        for position, index in enumerate(self.indices):
             j = i + index.ndim
             if isinstance(index, Range):
                 n = builder.compile(index.shape[0])
                 compiled_index = _pyast.Variable('slice').call(n)
+                range_axes.append(i)
             else:
+                advanced_positions.append(position)
                 prefix = len(trans)
                 trans.extend(range(i, j))
                 suffix = advanced_ndim - len(trans)
@@ -3613,10 +3617,9 @@ class Assemble(Array):
         assert i == self.func.ndim
         assert len(trans) == advanced_ndim
         compiled_func = builder.compile(self.func)
-        if advanced_ndim > 1 and trans[-1] - trans[0] != advanced_ndim - 1: # trans is noncontiguous
+        if len(advanced_positions) > 1 and advanced_positions[-1] - advanced_positions[0] != len(advanced_positions) - 1: # a slice separates two advanced indices (scalar ones included)
             # see https://numpy.org/doc/stable/user/basics.indexing.html#combining-advanced-and-basic-indexing
-            trans.extend(i for i, index in enumerate(self.indices) if isinstance(index, Range))
-            compiled_func = compiled_func.get_attr('transpose').call(*[_pyast.LiteralInt(i) for i in trans])
+            compiled_func = compiled_func.get_attr('transpose').call(*[_pyast.LiteralInt(i) for i in trans + range_axes])
         builder.get_block_for_evaluable(self).array_add_at(out, _pyast.Tuple(tuple(compiled_indices)), compiled_func)
 
     def _optimized_for_numpy(self):
